@@ -176,6 +176,27 @@ def events(ctx):
         if crc:
             b += list(binascii.crc_hqx(bytes(b), 0xFFFF).to_bytes(2, "big"))
         yield record("sfx.foreign", {"u": u, "octets": b, "sfx": rng.choice([rnd_sfx(rng), [0] * 16, [255] * 9, raw[hl + n - 2 * crc:][:40] or [1]])})
+    # the same for PUS packets: declared length lowered, buffer cut there, checksum recomputed, something follows
+    for _ in range(ctx.q(4000, 100000)):
+        k = rng.choice(["tc", "tm", "srv17", "srv1"])
+        u = None
+        while u is None or u["k"] != k:
+            u = rnd_unit(rng, allow_pdu=False)
+        try:
+            raw = list(bytes(_unit(u)[0]))
+        except Exception:  # noqa
+            continue
+        if len(raw) < 10 or len(raw) > 600:
+            continue
+        n = rng.randrange(7, len(raw))
+        b = raw[:4] + [(n - 7) >> 8, (n - 7) & 255] + raw[6:max(6, n - 2)]
+        b = b[:n - 2] if n >= 8 else b[:6]
+        if n >= 8:
+            b += list(binascii.crc_hqx(bytes(b), 0xFFFF).to_bytes(2, "big"))
+        else:
+            b += [0]                       # a 7-octet packet: one octet of data field, no room for anything
+        if len(b) == n:
+            yield record("sfx.foreign", {"u": u, "octets": b, "sfx": rng.choice([rnd_sfx(rng), raw[n - 2:][:30] or [1], [0] * 12])})
     for _ in range(ctx.q(8000, 150000)):
         n = rng.randrange(2, 9)
         pdus = rng.random() < 0.25
